@@ -10,11 +10,13 @@
 
   Trusted (DESIGN §4): lark's lexer (text ↔ tokens, `%ignore` of whitespace and comments) and the
   LALR(1) meta-theorem that a conflict-free LALR(1) grammar is unambiguous, so that the tree lark
-  returns for `ts` is *the* tree `t` with `Derives expr ts [t]`. Both are exercised by the
+  returns for `ts` is *the* tree `t` with `Derives expr ts [t]` (`derivable_is_render` shows every such
+  `t` is `toTree e` of a well-formed `e` with `render e = ts`; that `e` is unique is the trusted part). Both are exercised by the
   correspondence run (lark tree vs. `toTree`, zero shift/reduce resolutions in lark's log).
 -/
 import Cel.Lemmas.Grammar
 import Cel.Lemmas.GrammarDump
+import Cel.Lemmas.GrammarComplete
 namespace Cel.Props.C06
 open Cel Cel.Grammar
 
@@ -98,9 +100,11 @@ theorem dump_exact (e : PExpr) : dump (toTree e) = .ok (dumpSpec e) := dump_toTr
      theorem dump_roundtrip (e : PExpr) (h : WF e) :
        ∃ c, dump (toTree e) = .ok c ∧ Derives (.n .expr) c.toks [toTree e]
    It is FALSE on the current code for expressions containing an empty list literal
-   (`dump_empty_list_finding` below; tests/test_parser.py pins `[]` ↦ ''), hence the hypothesis. The
-   step from the dumped *text* back to the token string `c.toks` is lark's lexer (trusted,
-   corresponded; see notes/C06.md for the `1 .f` ↦ `1.f` finding which lives in that step). -/
+   (`dump_empty_list_finding` below; tests/test_parser.py pins `[]` ↦ ''), hence the hypothesis
+   `hasEmptyList e = false` (known finding D13, predicate `empty_list_literal` in the harness). The step
+   from the dumped *text* back to the token string `c.toks` is lark's lexer (trusted, corresponded; D71 —
+   `1 .f` printed as `1.f` — lived in that step and is fixed, see `selectDot`). `every_parse_tree` below
+   restates this for every tree the grammar admits. -/
 /-- **Dump round trip** for every well-formed expression without an empty list literal: the dump
 succeeds and the tokens of the dumped text derive the same tree again. -/
 theorem dump_roundtrip_partial (e : PExpr) (h : WF e) (hne : hasEmptyList e = false) :
@@ -127,6 +131,32 @@ theorem parse_sound (ts : List Tok) (e : PExpr) (h : parse ts = some e) :
       exact ⟨hc.2, hc.1, hc.1 ▸ render_derives _ hc.2⟩
     · cases h
   · cases h
+
+/-- **Completeness of the expression syntax** ("all expressions derivable from the grammar"): every
+sentence derivable from `expr` is the rendering of a well-formed expression, and every tree lark's
+tree builder can produce for it is that expression's tree. Structural recursion over derivations,
+one case per production (88). Together with `render_derives` this makes `WF`/`render`/`toTree` an
+exact description of the language and its trees. -/
+theorem derivable_is_render (ts : List Tok) (cs : List Tree) (h : Derives (.n .expr) ts cs) :
+    ∃ e, WF e ∧ ts = render e ∧ cs = [toTree e] :=
+  Cel.Grammar.derivable_is_render ts cs h
+
+/-- **The property for every parse tree the grammar admits** (not just for trees of the form
+`toTree e`): whenever `ts` derives the tree `t`, (1) the fully parenthesised text of the same
+expression is a sentence whose tree equals `t` modulo parenthesis nodes, (2) `tree_dump t` succeeds
+with exactly `dumpSpec e`, and (3) unless an empty list literal occurs, the tokens of the dump are `ts`
+again, so the dump derives `t` again. -/
+theorem every_parse_tree (ts : List Tok) (t : Tree) (h : Derives (.n .expr) ts [t]) :
+    ∃ e, WF e ∧ ts = render e ∧ t = toTree e ∧
+      Derives (.n .expr) (render (fullParen e)) [toTree (fullParen e)] ∧
+      strip (toTree (fullParen e)) = strip t ∧
+      dump t = .ok (dumpSpec e) ∧
+      (hasEmptyList e = false → Derives (.n .expr) (dumpSpec e).toks [t]) := by
+  obtain ⟨e, we, rfl, hc⟩ := derivable_is_render ts [t] h
+  have ht : t = toTree e := by simpa using hc
+  subst ht
+  exact ⟨e, we, rfl, rfl, fullParen_derives e, same_tree_as_parenthesised e we, dump_exact e,
+    fun hne => by rw [toks_dumpSpec e hne]; exact h⟩
 
 /-- the parser finds the intended tree on a sample with every level involved -/
 example : (parse (render (.cond (.or (.ident "a") (.and (.ident "b") (.rel .lt (.add .add (.lit .int "1")
